@@ -6,7 +6,7 @@ func init() {
 		"the whole statement in the form `no public operation writes memory that existed before it started` (R1 over every public root: receiver, arguments and every frame, grouper or view that shares storage with them stay bit-for-bit unchanged for every sharing history; append on a prestate slice counts as a write).",
 		"nothing is excluded; the verdict rests on the points-to abstraction (allocation-site objects, folded recursive paths, by-value nesting bounded at 5) and on the library summary table.",
 		"New keeps the caller's slices by reference: a caller who later writes them alters the frame (caller's write, outside the property)")
-	prop("C02", []string{"R3", "R4", "R5", "R6", "R7", "R8", "R42", "R40", "R31", "R35", "R59", "R57", "R67", "R74", "R79", "R80", "R98", "R94"},
+	prop("C02", []string{"R3", "R4", "R5", "R6", "R7", "R8", "R42", "R40", "R31", "R35", "R59", "R57", "R67", "R74", "R79", "R80", "R98", "R94", "R102"},
 		"(i) OR accumulation is sound for every nesting: every store into the shared boolean index is monotone (R3); (ii) every built-in comparison kernel compares with the operator its table key names, cell on the left, column arguments read on the same row, all five types agreeing (R4); (iii) the negation shortcut is the logical complement including nulls, per column type (R5); (iv) kernels read the cell of row i at physical position index[i] and write bit i (R6, R42); (v) kept rows are a subsequence of the frame's rows in order, once each, foreign positions excluded (R7, R8); errors of column kernels reach Err (R31).",
 		"that orFrames' merge selects exactly the union and NotClause exactly the difference (value reasoning; they are in-order subsequences by R8); semantics of in/any_bits/all_bits; int<->float promotion; user predicates.")
 	prop("C03", []string{"R9", "R10", "R7", "R1s", "R6", "R78"},
@@ -56,7 +56,7 @@ func init() {
 	prop("C17", []string{"R33", "R34", "R19", "R4", "R10", "R5", "R46", "R1r", "R74", "R94", "R95"},
 		"the 8-bit encoding cannot overflow into null or wrap (R33, R34, R19); undeclared values are rejected on every construction path (R34: minting is dominated by !strict and the cardinality guard); ordering comparisons and Sort use rank = declared position (R4, R10); filtering a strict column against an undeclared constant is an error (R46); null stays distinct (R5 polarity, R10).",
 		"in/like bitset contents beyond R19's layout and R35.")
-	prop("C18", []string{"R35", "R59", "R57", "R33", "R3", "R42", "R74", "R101"},
+	prop("C18", []string{"R35", "R59", "R57", "R33", "R3", "R42", "R74", "R101", "R102"},
 		"matcher selection and anchoring for all 16 pattern classes, both column types agreeing (R35); the custom upper-casing never stores a non-ASCII rune as a single byte (R33); nulls never reach the matcher (R35 dominance; enum matching ranges over values).",
 		"agreement of the rest of the ToUpper copy with strings.ToUpper (buffer growth, length-changing code points); regular-expression assembly.")
 	prop("C19", []string{"R6", "R36", "R25", "R29", "R31", "R41", "R48", "R2c", "R1w", "R1r", "R71", "R83", "R90", "R91", "R93"},
